@@ -16,6 +16,7 @@ BACKENDS = ["debug", "internal", "tbb", "omp"]
 TYPES = ["int", "string", "vector", "slowlog", "tracked"]
 NGETS = {"get": 1, "finget": 1, "waitget": 1, "getget": 2, "drop": 0, "finfinget": 1}
 ONETHREAD_SIG = "C02-internal-backend-1-thread-schedule-not-run-without-caller-wait"
+REINIT_SIG = "C02-internal-reinit-followup-goes-to-uninitialised-scheduler"
 
 
 def kv(line):
@@ -89,7 +90,7 @@ def run(ctx):
         return rc, lines, err
 
     trace_cases = []   # (backend, args, line, fields)
-    parked_short, pipe_full_inline, wake_calls, owner_iters = [], {}, {}, {}
+    parked_short, pipe_full_inline, wake_calls, owner_iters, teardown_cases, reinit_fail = [], {}, {}, {}, [0], []
     for b in BACKENDS:
         # ---- schedule(): bursts, exactly once after quiescence, no caller action
         for n in bursts:
@@ -178,6 +179,38 @@ def run(ctx):
                     "%s us after the previous closure finished, was not run" % (f.get("calls"), f.get("delay_us_of_lost_call")))
             else:
                 ctx.nontriv(("wakeup", b, T))
+        # ---- scheduler teardown: bursts (with follow-up chains of depth 0..3) IMMEDIATELY followed by re-initialisation of the
+        # tasking system, or by process exit (verdict written by an ELF destructor after all static destructors)
+        if b == "internal":
+            nt = ctx.pick(60, 400)
+            for T in (1, 2, 3, 8):
+                cases = [["teardown", "reinit", str(T), str(T2), str(nt), str(d)] for d in (0, 1, 3) for T2 in ((2,) if d else (2, 1))]
+                cases += [["teardown", "exit", str(T), str(nt), str(d)] for d in (0, 2)]
+                for args in cases:
+                    rc, lines, err = run_mode(b, args, timeout=60)
+                    tl = [l for l in lines if l.startswith("TEARDOWN")]
+                    f = kv(tl[-1]) if tl else {}
+                    depth = int(args[-1])
+                    ctx.count(nt * (depth + 1))
+                    teardown_cases[0] += 1
+                    what = ("initTaskingSystem(%s); %s schedule() calls, each closure scheduling a follow-up chain of depth %d; then at once %s"
+                            % (args[2], nt, depth, "initTaskingSystem(%s)" % args[3] if args[1] == "reinit" else "return from main()"))
+                    good = bool(f) and rc == 0 and "HANG" not in tl[-1] and f.get("zero") == "0" and f.get("multi") == "0" and f.get("once") == f.get("tasks")
+                    if good:
+                        ctx.nontriv(("teardown", tuple(args)))
+                        continue
+                    observed = (tl[-1] if tl else "harness rc=%d: %s" % (rc, san_summary(err)))
+                    required = "when the teardown has returned every closure scheduled before or during it has run exactly once"
+                    if args[1] == "reinit" and depth >= 1 and not tl:
+                        reinit_fail.append(" ".join(args))
+                        if len(reinit_fail) > 1:
+                            continue          # one report; all failing configurations are listed in the coverage
+                        # follow-up handed to the new, not yet initialised scheduler (g_ts replaced before the old scheduler is drained)
+                        ctx.violation("internal backend: " + what + ": " + observed,
+                                      {"backend": b, "harness_args": " ".join(args), "scenario": what, "observed": observed, "required": required,
+                                       "stderr_tail": err[-1500:]}, signature=REINIT_SIG)
+                    else:
+                        bad("schedule-teardown", b, args, observed + "   [" + what + "]", required, err)
         # ---- pipe owner and thief race for the ONLY queued item (internal backend; un-instrumented -O2 build and ASan build)
         if b == "internal":
             for pre, label in (("hw_", "un-instrumented -O2"), ("h_", "ASan -O1")):
@@ -366,6 +399,8 @@ def run(ctx):
     ctx.cov["internal_pipe_full_closures_run_inline_by_writer"] = pipe_full_inline
     ctx.cov["wakeup_calls_swept"] = wake_calls
     ctx.cov["ownerthief_iterations"] = owner_iters
+    ctx.cov["teardown_cases"] = teardown_cases[0]
+    ctx.cov["reinit_with_followups_failing_configurations"] = reinit_fail
     ctx.cov["mode_histogram"] = hist
     ctx.cov["backends"] = BACKENDS
     ctx.cov["burst_sizes"] = bursts
@@ -373,7 +408,7 @@ def run(ctx):
     ctx.cov["client_scripts"] = sorted(NGETS)
     ctx.rule = ("per backend (TBB, OpenMP, Internal, Debug; ASan+UBSan): schedule() bursts of %s closures owning heap state (exactly-once "
                 "after quiescence, caller idle); async() x %d over int/long string/vector/slow-logging type (+ outstanding futures); "
-                "ownerthief (internal: tight loops of AsyncTask construct+get / construct+destroy / schedule+parallel_for(1): owner and thief race for the only queued item); arena (first schedule() of a functor type from inside a small tbb::task_arena, later ones from main must run within 2 s); TSan(OpenMP build): poll finished() then get() on string/vector; wakeup (one schedule() at a time, delay swept 0..100 us around the worker's spin-to-sleep transition, each closure must run within 2 s); parkburst (workers parked, 300/1000 pending closures > pipe size); nested (a scheduled closure schedules a same-type closure and waits in AsyncTask::get / parallel_for); AsyncTask<T> x %d repetitions x 6 client scripts x task durations {0,2,12} ms over 5 result types incl. a "
+                "teardown (internal, T in {1,2,3,8}: bursts with follow-up chains of depth 0..3 immediately followed by re-initialisation or process exit, per-task counters exactly 1); ownerthief (internal: tight loops of AsyncTask construct+get / construct+destroy / schedule+parallel_for(1): owner and thief race for the only queued item); arena (first schedule() of a functor type from inside a small tbb::task_arena, later ones from main must run within 2 s); TSan(OpenMP build): poll finished() then get() on string/vector; wakeup (one schedule() at a time, delay swept 0..100 us around the worker's spin-to-sleep transition, each closure must run within 2 s); parkburst (workers parked, 300/1000 pending closures > pipe size); nested (a scheduled closure schedules a same-type closure and waits in AsyncTask::get / parallel_for); AsyncTask<T> x %d repetitions x 6 client scripts x task durations {0,2,12} ms over 5 result types incl. a "
                 "lifetime-instrumented payload whose slot trace is validated by the extracted model; destroy-while-running x %d; "
                 "one-thread schedule. non-trivial = a case with a non-trivially-constructible result type or a task outliving "
                 "the constructor, or a burst > 1" % (bursts, areps, treps, dreps))
